@@ -331,6 +331,32 @@ var c13Templates = []sim.Template{
 		}
 		return sc
 	}},
+	{Name: "another-accounts-recovery-completed-in-a-remembered-session", F: func(s *sim.Sim) []*sim.Action {
+		// V's browser is authenticated by the remember cookie only; somebody else's password recovery is
+		// completed in that very session (login-after-recovery off: the session stays V's and stays
+		// half-authenticated); settings requests afterwards are still requests of a half-authenticated session
+		if !s.RememberActive() || !s.Cfg.Has("auth") || !s.Cfg.Has("recover") || s.Cfg.RecoverLogin || len(s.Cfg.TwoFA) == 0 || s.Cfg.TwoFAEmail {
+			return nil
+		}
+		k := s.Cfg.TwoFA[s.R.Intn(len(s.Cfg.TwoFA))]
+		free := func(u *world.User) bool { return u.Confirmed && u.TOTPSecretKey == "" && u.SMSPhone == "" }
+		v := findAcct(s, free)
+		w := findAcct(s, free, v)
+		if v < 0 || w < 0 {
+			return nil
+		}
+		sc := []*sim.Action{act("login", 0, v, "ok", "rm", "true")}
+		if k == "totp" {
+			sc = append(sc, act("totp_setup", 0, -9, ""), act("totp_confirm", 0, -9, "ok"))
+		} else {
+			sc = append(sc, act("sms_setup", 0, -9, "own"), act("sms_confirm", 0, -9, "ok"))
+		}
+		e := act("recover_end", 0, w, "current")
+		e.Cls2 = "fresh"
+		sc = append(sc, act("dropsid", 0, -9, ""), act("visit", 0, -9, "", "route", "/public"), act("recover_start", 0, w, ""), e,
+			act("regen", 0, -9, ""), act(k+"_remove", 0, -9, pickS(s.R, "ok", "recovery")), act("visit", 0, -9, "", "route", "/protected/full"))
+		return sc
+	}},
 	{Name: "enrol-totp", F: func(s *sim.Sim) []*sim.Action {
 		if !s.Cfg.Has2FA("totp") || s.Cfg.TwoFAEmail || !s.Cfg.Has("auth") {
 			return nil
